@@ -528,6 +528,29 @@ class Model:
                 ch |= self._add(self._types, (fq, "self"), ("obj", c))
         return ch
 
+    def bind_args(self, callee, call):
+        """{param name: argument expr} for a call of repo function `callee` (self excluded)"""
+        fn = self.defs[callee]
+        ps = self.params(callee)
+        out = {}
+        for p, a in zip(ps, call.args):
+            if isinstance(a, ast.Starred):
+                break
+            out[p] = a
+        names = set(ps) | {x.arg for x in fn.args.kwonlyargs}
+        for k in call.keywords:
+            if k.arg in names:
+                out[k.arg] = k.value
+        return out
+
+    def calls_to(self, fq, callee):
+        """call expressions inside fq that may invoke repo function `callee`"""
+        return [n for n in self.own_nodes(fq) if isinstance(n, ast.Call) and callee in self.callees_of_call(fq, n)]
+
+    def ext_name(self, fq, f):
+        r = self.resolve(fq, f)
+        return r[1] if isinstance(r, tuple) and r[0] == "ext" else None
+
     # ------------------------------------------------------------------ call graph
     def callees_of_call(self, fq, call):
         """set of repo function quals a call expression may invoke"""
